@@ -286,7 +286,7 @@ func (c *Real64) Erf(a ConstScalar) Scalar {
 }
 func (c *Real64) Erfc(a ConstScalar) Scalar {
   x := a.GetFloat64()
-  v0 := math.Erf(x)
+  v0 := math.Erfc(x)
   f1 := func() float64 {
     return -2.0/(math.Exp(x*x)*special.M_SQRTPI)
   }
